@@ -16,11 +16,11 @@ RULE = ("E-HIST: breadth-first search over every history of construct/export ope
         "LinearScales with equal-span domains at different offsets, explicit domain; together using every option group - up to depth 8 with one back-end per spec (thorough: both back-ends, 6 specs, depth 7). Every history is replayed from a purged, re-imported library; "
         "states are deduplicated by a fingerprint of the instances AND all labella module/class globals (aliasing included). "
         "Oracle: every export is byte-identical to the export of the same spec alone in a fresh interpreter process. "
-        "Plus every ordered pair of 32 default-scale timelines spanning 40 s .. 67 y (incl. multi-year extents on either side of the year-step thresholds) anchored around one calendar boundary (all tick units), built one after the other; plus three exports in a row of one default-scale timeline for every data extent start x span (8 starts, thorough 16, x the span ladder 1 s .. 200 y x factors {1, 1.37, 0.73}), each compared with the export of a fresh timeline. Non-trivial: an export made after a different spec was constructed or exported since this instance was built.")
+        "Plus every ordered pair of 32 default-scale timelines spanning 40 s .. 67 y (incl. multi-year extents on either side of the year-step thresholds) anchored around one calendar boundary (all tick units), built one after the other; plus three exports in a row of one default-scale timeline for every data extent start x span (8 starts, thorough 16, x the span ladder 1 s .. 200 y x factors {1, 1.37, 0.73}), each compared with the export of a fresh timeline; plus every spec alone in fresh interpreters started with -O and -OO. Non-trivial: an export made after a different spec was constructed or exported since this instance was built.")
 ASSUMPTIONS = ["reference documents come from fresh subprocesses started by the check (one per spec and back-end)",
                "data and options are deep-copied per construction; caller-side sharing is outside the claim"]
 REQUIRED_COUNTERS = ("exports_checked", "exports_after_other_spec", "repeated_exports", "pair_exports", "repeat_exports",
-                     "repeat_extents_a_second_rounding_would_widen")
+                     "repeat_extents_a_second_rounding_would_widen", "interpreter_flag_exports")
 
 dt = _dt.datetime
 # Together the specs use every option group (scale default/own, domain, labella, margin, labelPadding, latex, colour lists,
@@ -87,13 +87,14 @@ sys.stdout.write(json.dumps(out))
 _refs = {}
 
 
-def reference(spec, backend):
-    """Export of the spec alone, in a fresh interpreter process (cached per worker)."""
-    key = (spec, backend)
+def reference(spec, backend, flags=()):
+    """Export of the spec alone, in a fresh interpreter process (cached per worker).  flags: interpreter options of that
+    process, e.g. ("-O",) - how the interpreter was started is not one of the timeline's data or options."""
+    key = (spec, backend) + tuple(flags)
     if key not in _refs:
         env = dict(os.environ)
         env["PYTHONHASHSEED"] = "0"
-        p = subprocess.run([sys.executable, "-c", REF_SCRIPT % {"verif": core.VERIF, "spec": spec, "backend": backend}],
+        p = subprocess.run([sys.executable] + list(flags) + ["-c", REF_SCRIPT % {"verif": core.VERIF, "spec": spec, "backend": backend}],
                            capture_output=True, text=True, env=env, timeout=120)
         if p.returncode != 0:
             _refs[key] = ("ERR", p.stderr.strip().split("\n")[-1])
@@ -267,12 +268,32 @@ def judge_repeat(st, en, backend, acc=None):
 
 def plan(tier, seed):
     n = len(pair_specs())
-    return [{"kind": "pairs", "first": i} for i in range(n)] + [{"kind": "repeat", "tier": tier, "mod": 8, "rem": r} for r in range(8)]
+    return ([{"kind": "pairs", "first": i} for i in range(n)] + [{"kind": "repeat", "tier": tier, "mod": 8, "rem": r} for r in range(8)]
+            + [{"kind": "interpreter", "specs": sorted(SPECS)[i::3]} for i in range(3)])
 
 
 def run_shard(shard):
     from labella.timeline import TimelineSVG
     acc = Acc()
+    if shard["kind"] == "interpreter":
+        # the same spec alone in fresh interpreters started with and without optimisation flags: identical documents
+        for spec in shard["specs"]:
+            for backend in ("svg", "tex"):
+                base = reference(spec, backend)
+                for flags in (["-O"], ["-OO"]):
+                    got = reference(spec, backend, flags)
+                    acc.evals += 1
+                    acc.states += 1
+                    acc.trans += 1
+                    acc.nontriv += 1
+                    acc.counters["interpreter_flag_exports"] += 1
+                    if got != base:
+                        acc.violation({"interpreter": [spec, backend, flags]}, "C10:export-differs-with-interpreter-flag",
+                                      "spec %s (%s) exported alone in a fresh interpreter started with %s differs from the same export "
+                                      "without the flag (%s / %s)" % (spec, backend, " ".join(flags), str(got)[:80], str(base)[:80]),
+                                      order=(2, spec, backend))
+        acc.sample({"interpreter": [shard["specs"][0], "svg", ["-O"]]})
+        return acc
     if shard["kind"] == "repeat":
         case = None
         for i, (st, en) in enumerate(repeat_cases(shard["tier"])):
@@ -369,6 +390,11 @@ def hist_expand(ctx, h, acc):
 
 
 def replay(case):
+    if "interpreter" in case:
+        spec, backend, flags = case["interpreter"]
+        if reference(spec, backend, flags) != reference(spec, backend):
+            return "C10:export-differs-with-interpreter-flag", "spec %s (%s) with %s differs" % (spec, backend, " ".join(flags))
+        return None
     if "repeat" in case:
         return judge_repeat(case["repeat"][0], case["repeat"][1], case["backend"])
     if "pair" in case:
